@@ -39,50 +39,53 @@ def run(ctx, report: Report) -> None:
     for fq, kind in targets:
         mod, fn = src.func(fq)
         loops = find_scanner_loops(mod, fq, fn)
-        if not loops:
-            raise AnalysisError(f'{fq}: no index-driven scanner loop found (anchor vanished)')
+        from .sem import pretty_progress, tokenizer_progress
+        (tokenizer_progress if kind == 'tokens' else pretty_progress)(ctx, r1)
+        # regexes that can produce the match variables: non-nullable and free of exponential ambiguity
+        names = []
+        if kind == 'tokens':
+            names = [r for r in inv.regexes if r.kind in ('token', 'special-token')]
+        else:
+            dn = inv.folder.env_nodes['pretty'].get('TOKENS')
+            if not isinstance(dn, ast.Dict):
+                raise AnalysisError('pretty.TOKENS is not a dict literal')
+            for v in dn.values:
+                names.append(inv.by_name(f'pretty.{unparse(v)}'))
+        nullable = []
+        ambiguous = []
+        for r in names:
+            s = rx.System()
+            a = s.add('r', r.pattern, r.flags)
+            s.freeze()
+            n, _ = a.shortest()
+            if n is None or n < 1:
+                nullable.append(r.name)
+            try:
+                eda = a.find_eda()
+            except rx.Unsupported as e:
+                raise AnalysisError(f'{r.name}: outside the exact regex model: {e}')
+            if eda:
+                ambiguous.append((r, eda[0]))
+        r1.instance({'scanner': fq, 'match_regexes': len(names), 'nullable_regexes': nullable,
+                     'exponentially_ambiguous': [r.name for r, _ in ambiguous]}, key=fq + '|regexes')
+        r1.obligation(not nullable and not ambiguous)
+        for r, eda in ambiguous:
+            r1.violation(f'{fq} regex {r.name} exponential', r.where,
+                         f'{fq}: regex {r.name} ({r.pattern!r}) is exponentially ambiguous (pump {eda.get("pump")!r}): a failing match '
+                         f'attempt (e.g. an unterminated string in a truncated repr) backtracks for ever, so the scanner never '
+                         f'returns')
+        for nm in nullable:
+            r1.violation(f'{fq} nullable {nm}', mod.where(fn),
+                         f'{fq}: regex {nm} can match the empty string, so the index need not advance after a match')
+        # second opinion: the structural path rule, where the loop has the shape it understands
         for lp in loops:
-            # regexes that can produce the match variables
-            names = []
-            if kind == 'tokens':
-                names = [r for r in inv.regexes if r.kind in ('token', 'special-token')]
-            else:
-                dn = inv.folder.env_nodes['pretty'].get('TOKENS')
-                if not isinstance(dn, ast.Dict):
-                    raise AnalysisError('pretty.TOKENS is not a dict literal')
-                for v in dn.values:
-                    names.append(inv.by_name(f'pretty.{unparse(v)}'))
-            nullable = []
-            ambiguous = []
-            for r in names:
-                s = rx.System()
-                a = s.add('r', r.pattern, r.flags)
-                s.freeze()
-                n, _ = a.shortest()
-                if n is None or n < 1:
-                    nullable.append(r.name)
-                try:
-                    eda = a.find_eda()
-                except rx.Unsupported as e:
-                    raise AnalysisError(f'{r.name}: outside the exact regex model: {e}')
-                if eda:
-                    ambiguous.append((r, eda[0]))
             r1.instance({'loop': f'{fq}: while {unparse(lp.node.test)}', 'index': lp.idx,
-                         'match_regexes': len(names), 'nullable_regexes': nullable,
                          'paths_without_progress': lp.bad_paths, 'bound_untouched': lp.test_ok}, key=fq)
-            r1.obligation(not lp.bad_paths and not nullable and lp.test_ok and not ambiguous)
+            r1.obligation(not lp.bad_paths and lp.test_ok)
             for b in lp.bad_paths:
                 r1.violation(f'{fq} loop-progress {b}', mod.where(lp.node),
                              f'{fq}: a path returns to the head of `while {unparse(lp.node.test)}` with the {b}: the loop '
                              f'never terminates on input that takes this path')
-            for r, eda in ambiguous:
-                r1.violation(f'{fq} regex {r.name} exponential', r.where,
-                             f'{fq}: regex {r.name} ({r.pattern!r}) is exponentially ambiguous (pump {eda.get("pump")!r}): a failing match '
-                             f'attempt (e.g. an unterminated string in a truncated repr) backtracks for ever, so the scanner never '
-                             f'returns')
-            for nm in nullable:
-                r1.violation(f'{fq} nullable {nm}', mod.where(lp.node),
-                             f'{fq}: regex {nm} can match the empty string, so `{lp.idx} = m.end(0)` need not advance')
             if not lp.test_ok:
                 r1.violation(f'{fq} loop-bound', mod.where(lp.node), f'{fq}: the loop bound {lp.bound} changes inside the loop')
 
